@@ -114,9 +114,14 @@ def image_level(ctx):
             with R.TempImage(("\n".join(lines) + "\n").encode("ascii"), "d.cue", {"d.bin": binb}) as path:
                 r = R.ls(path, "")
                 outs.append((r.out, r.exc_name))
+        # line ends: LF, CRLF, CR-only (text files are read with universal newlines)
+        for le in ("\r\n", "\r"):
+            with R.TempImage(le.join(CG.canonical(sheet) + [""]).encode("ascii"), "d.cue", {"d.bin": binb}) as path:
+                r = R.ls(path, "")
+                outs.append((r.out, r.exc_name))
         ctx.count("image_same", (k, tuple(CG.canonical(sheet))))
         ctx.require("image produced from a decorated sheet is the same", {"sheet": CG.canonical(sheet)},
-                    outs[0] == outs[1] == outs[2] and outs[0][1] is None, outs)
+                    all(o == outs[0] for o in outs) and outs[0][1] is None, outs)
     # decorations of any volume: well over 64 KiB of unrecognised / blank lines before FILE, after a TRACK line, before the last INDEX
     for k in range(2 if ctx.quick else 8):
         sheet = CG.random_sheet(rng, ntracks=rng.randint(2, 4))
